@@ -60,6 +60,14 @@ RECURSIVE NextNonBlankAt(_, _)
 NextNonBlankAt(s, i) == IF i > Len(s) THEN 0 ELSE IF IsBlank(s[i]) THEN NextNonBlankAt(s, i + 1) ELSE i
 \* the next non-blank character is a ":" and nothing but blanks follows it (block headers, labels)
 ColonEndsLine(s, i) == LET j == NextNonBlankAt(s, i) IN j > 0 /\ s[j] = 58 /\ NextNonBlankAt(s, j + 1) = 0
+\* a blank between a NAME and "(" is layout (call, function header) - unless the name is a keyword that is followed by an
+\* expression ("return (x)" is not the call "return(x)")
+IsWordCh(c) == (c >= 48 /\ c <= 57) \/ (c >= 65 /\ c <= 90) \/ (c >= 97 /\ c <= 122) \/ c = 95
+RECURSIVE WordStartAt(_, _)
+WordStartAt(a, i) == IF i >= 1 /\ IsWordCh(a[i]) THEN WordStartAt(a, i - 1) ELSE i + 1
+KeywordsBeforeExpr == { <<114, 101, 116, 117, 114, 110>>, <<105, 102>>, <<101, 108, 105, 102>>, <<119, 104, 105, 108, 101>>, <<105, 110>>,
+                        <<106, 117, 109, 112, 105, 102>>, <<106, 117, 109, 112>>, <<105, 110, 99, 108, 117, 100, 101>> }
+CallGap(acc) == acc # <<>> /\ IsWordCh(acc[Len(acc)]) /\ SubSeq(acc, WordStartAt(acc, Len(acc)), Len(acc)) \notin KeywordsBeforeExpr
 RECURSIVE NormFrom(_, _, _, _)
 NormFrom(s, i, q, acc) ==      \* q = 0 outside, otherwise the closing delimiter we are waiting for
     IF i > Len(s) THEN acc
@@ -72,7 +80,7 @@ NormFrom(s, i, q, acc) ==      \* q = 0 outside, otherwise the closing delimiter
          ELSE IF IsBlank(c) THEN
             LET prev == IF acc = <<>> THEN 0 ELSE acc[Len(acc)]
                 nxt == NextNonBlank(s, i) IN
-            IF prev \in {0, 32, 40, 44} \/ nxt \in {0, 41, 44} \/ ColonEndsLine(s, i) THEN NormFrom(s, i + 1, 0, acc)
+            IF prev \in {0, 32, 40, 44} \/ nxt \in {0, 41, 44} \/ ColonEndsLine(s, i) \/ (nxt = 40 /\ CallGap(acc)) THEN NormFrom(s, i + 1, 0, acc)
             ELSE NormFrom(s, i + 1, 0, Append(acc, 32))
          ELSE NormFrom(s, i + 1, 0, Append(acc, c))
 Norm(s) == RStripL(LStripL(NormFrom(s, 1, 0, <<>>)))
